@@ -12,7 +12,7 @@ COQ_IMPORTS = ("From Synnax Require Import Common.Base Cesium.Store Cesium.Index
                "Cesium.UnaryIter Cesium.UnaryWrite Cesium.Read Monitors.Mon_C01.")
 COQ_EXTRA = "Local Open Scope Z_scope."
 CASE_TYPE = "case_t"
-COUNTS = {"quick": 500, "thorough": 20000}
+COUNTS = {"quick": 700, "thorough": 20000}
 SHARD = 60
 OPS_KEY = "ops"
 RULE = ("histories through the public cesium API: 1-3 index channels x 0-3 data channels (int64/uint8/float32/string/json), "
@@ -28,7 +28,11 @@ TRUSTED = ["harness package verifh/cesh: sample value <-> bytes bijection per da
 ASSUMES = ["time stamps within [0, 2^63-1]", "one writer session open at a time (file acquisition is then deterministic)",
            "explicit index frames only (no AutoIndex / wall clock); persist interval irrelevant (no crash)",
            "variable-length offset cache is transparent"]
-PARTIAL = None
+PARTIAL = ("C01_read_exact_partial is proved for stored layouts satisfying the decidable guard layout_ok (every data domain inside one "
+           "index domain); that every legal history produces such a layout whose content equals `committed h` (write->layout "
+           "refinement: insert/update of the domain index, rollover, groups not writing their index) is NOT proved: it is observed "
+           "on every run (model layout vs implementation reads, implementation reads vs committed h). Proved on the write side: "
+           "uncommitted writes, Close and Reopen change no read (C01_uncommitted_invisible).")
 
 
 def c_hop(o):
@@ -187,8 +191,23 @@ def consts(repo):
                                                        int(m3.group(1)) * 10 ** 9))
 
 
-READY = False
+READY = True
 TECHNIQUE = "Coq proof (refinement of the write/read model to the committed-samples specification) + model/impl correspondence by vm_compute"
 DESIGN_REF = "DESIGN.md §8 C01"
-LEVEL_TEXT = "TODO"
-LEVEL_NOTE = "TODO"
+LEVEL_TEXT = ("Machine-checked Coq theorems over an executable Gallina model of the cesium write path (newStreamWriter, idxWriter.write/"
+              "validateWrite/Commit/resolveCommitEnd, unary.Writer, domain.Writer commit/rollover, domain index insert/update) and read path "
+              "(DB.Read = SeekFirst; Next(TimeSpanMax)* over unary iterators, index Distance/search): for every stored layout satisfying the "
+              "decidable guard layout_ok and every read range, DB.Read of a channel returns exactly the stored samples whose index stamps lie "
+              "in the range, each once, ascending (C01_read_exact_partial, with layer theorems search_spec, distance_count, slice_exact); a "
+              "Write without commit, Close and Reopen change no read (C01_uncommitted_invisible). The abstract specification `committed h` "
+              "(samples of successful writes made visible by successful commits) is stated separately from the mechanism. The model is tied "
+              "to /repo on every run: generated histories (several writers at disjoint times incl. before existing data, variable-length "
+              "types, file-size caps forcing rollover, auto-commit, reopen) are executed on the real cesium.DB through the public API; all "
+              "writer outcomes and every series of every read are compared with the model inside Coq, and a decidable monitor compares the "
+              "implementation's reads with `committed h` (also after Close+Open).")
+LEVEL_NOTE = ("Trusted: Coq kernel/vm_compute; hand-written model (tied by correspondence); harness (public API only) and its sample<->bytes "
+              "codec; generator. Theorems closed under the global context. partial: the write->layout refinement (history => layout_ok and "
+              "layout_assoc = committed h) is observed, not proved; read exactness carries the guard layout_ok. Finding F25 (index Distance "
+              "reported a range ending on an index file-rollover boundary as discontinuous => reads returned nothing) was found by this "
+              "check and repaired by fix commit 5e59704 (C01_legacy_distance_refuted keeps the witness). One writer session at a time; "
+              "explicit index frames only; no crash/persistence modelling (that is C02).")
